@@ -21,17 +21,17 @@ PLUG_NOTE = ("Trusted: Lean kernel; the hand-written models of the option plugin
 META = {
     "C14": dict(
         text="Lean theorems: the server_id models satisfy the RFC 8415 section 16 discard matrix for all 256 message types x {no, own, other} Server-ID (decide over the whole table), stamp exactly one Server-ID equal to the configured DUID; DHCPv4: dropped iff a BOOTREQUEST names another server in siaddr or option 54, otherwise siaddr and option 54 are stamped. The same predicates judge the real plugin.",
-        design_ref="DESIGN.md §4.2", technique="Lean 4 theorems (decision table over all message types; stamping) + conformance against the real server_id plugin", note=PLUG_NOTE),
+        design_ref="DESIGN.md §4.2", technique="Lean 4 theorems (decision table over all message types; stamping) + translator units serverid6, handlers4/6, setups + conformance against the real server_id plugin, whole chains, and long datagrams through the real Serve loop", note=PLUG_NOTE),
     "C17": dict(
         text="Lean theorems, one per plugin and protocol plus C17_builtin4/6 for anything setup accepts: the option(s) the plugin owns are present afterwards exactly when the property says, with exactly the encoded configured value, every other option / message type / yiaddr untouched, stop/continue as stated; in-range numbers decode back to themselves. The same predicates judge every built-in plugin on generated configurations and requests.",
-        design_ref="DESIGN.md §4.2", technique="Lean 4 theorems (per-plugin decision + encoders) + conformance against every built-in option plugin", note=PLUG_NOTE),
+        design_ref="DESIGN.md §4.2", technique="Lean 4 theorems (per-plugin decision + encoders) + translator units handlers4/6, setups + conformance against every built-in option plugin, whole chains, and long datagrams through the real Serve loop", note=PLUG_NOTE),
     "C19": dict(
         text="Lean theorems: a configuration the setup model accepts satisfies wireOK (the precondition under which the emitted bytes decode back), and under wireOK the Lean decoders invert the encoders (routes, RFC 1035 label lists of any length, address lists, boot-file parameters); staticroute rejects non-IPv4. Partial: 'no panic' is observed on the implementation; one known finding (oversize DHCPv6 option bodies).",
-        design_ref="DESIGN.md §4.2", technique="Lean 4 theorems (setup => wire precondition, encoder/decoder round trips) + conformance and round-trip oracle on every built-in plugin and on whole chains",
+        design_ref="DESIGN.md §4.2", technique="Lean 4 theorems (setup => wire precondition, encoder/decoder round trips) + translator units setups, netmask, rangesetup, prefix6, filesetup + conformance and round-trip oracle on every built-in plugin and on whole chains",
         note="Partial: the library's own parser is mirrored, not verified; the DHCPv6 oversize-option case is a recorded known finding. " + PLUG_NOTE),
     "C18": dict(
         text="Lean theorem: for every parsed document, interface list and stdlib answer, the loader model returns exactly what an independently written specification demands (plugin lists, [address][%zone][:port] with defaults — incl. a general proof that splitting at the last '%' equals the spec's split —, multicast expansion, every listed error case). Partial: YAML/viper/cast text layer is third-party; generated and mutated documents are loaded by the real config.Load under recover and compared.",
-        design_ref="DESIGN.md §4 C18", technique="Lean 4 theorem (loader model = independent specification, all inputs) + conformance of the model against config.Load on generated and mutated YAML",
+        design_ref="DESIGN.md §4 C18", technique="Lean 4 theorem (loader model = independent specification, all inputs) + translator units config, configload (all of config.Load regenerated, the front handing viper its settings) and mainreg (the file named with -c is the one loaded, before anything is opened) + conformance of the model against config.Load on generated and mutated YAML",
         note="Partial: the theorem starts from the parsed tree (what viper/cast deliver); the text layer is exercised, not modelled."),
     "C01": dict(
         text="Lean theorems: every place where the code can panic is an explicit outcome of the model and is proved unreachable for every history (allocator BUG branches, toIP, the nil control message within the configuration space); dispatch ends in drop or exactly one send; the chain runs at most len(chain) handlers; all model functions are total. Partial: byte parsing, goroutines, sockets are runtime. Whole chains of real plugins are driven with mutated datagram histories under recover + watchdog.",
@@ -59,16 +59,16 @@ META = {
         design_ref="DESIGN.md §4 C12", technique="Lean 4 theorem (decision table + relay mirroring for every depth) + conformance through the server capture hook", note=DISP_NOTE),
     "C13": dict(
         text="Lean theorems for handlers that are arbitrary functions: the invocation log is positions 0..k-1 in order, each given its predecessor's response, k ends at the first stop, the response returned last is what is sent and nil sends nothing; LoadPlugins yields exactly the supported listed plugins in order or an error. The same predicate judges the logged invocations of scripted handlers run by the real server loop.",
-        design_ref="DESIGN.md §4 C13", technique="Lean 4 theorem (fold semantics for arbitrary handler functions, loader characterisation, server.Start model) + translator units loadplugins, start + conformance with scripted handlers, synthetic registered plugins, whole chains of real plugins and the whole server through server.Start + go/ast facts F3, F7, F9", note=DISP_NOTE),
+        design_ref="DESIGN.md §4 C13", technique="Lean 4 theorem (fold semantics for arbitrary handler functions, loader characterisation, server.Start model) + translator units loadplugins, start, mainreg (main.go and the Plugin declarations) + the whole program composed in Lean (Props/Server.lean) + conformance with scripted handlers, synthetic registered plugins, whole chains of real plugins and the whole server through server.Start + go/ast facts F3, F7, F9", note=DISP_NOTE),
     "C15": dict(
         text="Lean theorem for arbitrary handlers: destination, port, link-level flag and interface pinning of every reply equal the RFC 2131 §4.1 table as the property states it, for all giaddr/ciaddr/flag/reply-type/yiaddr/binding combinations; no missing interface within the property's configuration space.",
         design_ref="DESIGN.md §4 C15", technique="Lean 4 theorem (decision table, all inputs; link-level frame model) + translator units dispatch4, ethernet, start (Go source regenerated into Lean, proved equal to the models) + conformance through the server capture hook, the composed-server engine and the real sendEthernet on the loopback interface + go/ast facts F5, F6, F8", note=DISP_NOTE),
     "C02": dict(
         text="Lean invariant proof by induction over every history of requests and restarts (any hardware-address lengths, any times, any allocator policy, any re-marking order): the history monitor 'in range, configured lease time, sticky per client, injective, unanswered only when exhausted' never fails on the model; the same monitor judges the implementation's trace while the model is stepped alongside.",
-        design_ref="DESIGN.md §4 C02", technique="Lean 4 invariant proof over all request/restart histories + conformance against the real range plugin on a real sqlite file", note=RANGE_NOTE),
+        design_ref="DESIGN.md §4 C02", technique="Lean 4 invariant proof over all request/restart histories + translator units range4, rangesetup (an accepted configuration establishes the theorem's hypotheses) + conformance against the real range plugin on a real sqlite file", note=RANGE_NOTE),
     "C03": dict(
         text="Lean theorem: at every reachable state a restart on the written table succeeds and restores the same bindings and allocator bitmap for every re-marking order; stored expiry within one second of the promised lease end. The pre-repair loader (net.ParseMAC) is refuted by a concrete witness that the corpus replays on the code.",
-        design_ref="DESIGN.md §4 C03", technique="Lean 4 invariant proof (restart at every reachable state) + translator units range4, storage + conformance with a restart on a copy of the database at generated crash points, the promised lease read off the reply", note=RANGE_NOTE),
+        design_ref="DESIGN.md §4 C03", technique="Lean 4 invariant proof (restart at every reachable state) + translator units range4, storage, rangesetup + conformance with a restart on a copy of the database at generated crash points, the promised lease read off the reply", note=RANGE_NOTE),
     "C20": dict(
         text="Lean theorems over a BitVec-64 model that follows ipcalc.go statement by statement: Offset equals the block index or overflow, in either argument order; AddPrefixes equals base+n*2^(128-p) or overflow; the two are inverse — for all 128-bit operands, all p in 0..128, all n. The model is tied to the code by exact differential comparison on carry/borrow-biased operands every run.",
         design_ref="DESIGN.md §4 C20", technique="Lean 4 theorem (unbounded, BitVec/Nat arithmetic) + differential conformance of the model against allocators.Offset/AddPrefixes",
